@@ -1984,6 +1984,9 @@ func runGroup(run *vh.Run, root *vh.Rng, g int, cases []int, nOps int) {
 }
 
 func main() {
+	if len(os.Args) > 1 && os.Args[1] == "-rfchild" {
+		rfChildMain(os.Args[2:])
+	}
 	run := vh.NewRun("C19", "exploration")
 	logging.Init(filepath.Join(run.Scratch, "log"), "c19", "error", 1, true)
 	run.Assume("reference = tree of Go maps with a working copy per write transaction; edge semantics E1-E10 (header of cmd/c19/main.go) taken from db.go/leveldb.go/db_test.go as 'rejected, no state change'")
@@ -2022,7 +2025,12 @@ func main() {
 		runGroup(run, root, g, cs, nOps)
 	})
 	run.Count("max_depth_reached", int64(globalDepth))
+	// class "read-fault" (readfault.go): scanning operations while a read of the table files fails
+	readFaultCases(run, root, nSeq, run.N(12, 180))
 	if run.Only < 0 {
+		if run.Counter("read_fault_cases") > 0 && run.Counter("read_fault_cases_fault_fired") == 0 {
+			run.Inconclusive("read-fault class: the injected read error fired in no case")
+		}
 		if run.Counter("dumps_compared") == 0 || run.Counter("comparisons") == 0 {
 			run.Inconclusive("no dump or result was compared")
 		}
